@@ -1022,6 +1022,13 @@ class Interp:
             raise Undecided("attribute store on %r" % (base,))
         if isinstance(t, ast.Subscript):
             base = self.eval(t.value, env)
+            if isinstance(t.slice, ast.Slice) and isinstance(base, Lst):
+                lo = self.index(self.eval(t.slice.lower, env)) if t.slice.lower is not None else None
+                hi = self.index(self.eval(t.slice.upper, env)) if t.slice.upper is not None else None
+                if t.slice.step is not None:
+                    raise Undecided("extended slice assignment")
+                base.items[lo:hi] = self.iterate(v)
+                return
             k = self.eval(t.slice, env)
             if isinstance(base, Lst):
                 base.items[self.index(k)] = v
